@@ -123,7 +123,21 @@ func mw(layer int, kind string, lg *logger, argIndex int, isString bool) frugal.
 					args[argIndex] = args[argIndex].(int32) + 1
 				}
 			}
-			r := next(svc, m, args)
+			var r frugal.Results
+			if kind == "twice" {
+				// a retry / fallback layer: call next, call it again with arg+100, hand back what the FIRST call returned
+				a1 := append(frugal.Arguments(nil), args...)
+				a2 := append(frugal.Arguments(nil), args...)
+				if isString {
+					a2[argIndex] = a2[argIndex].(string) + strings.Repeat("+", 100)
+				} else {
+					a2[argIndex] = a2[argIndex].(int32) + 100
+				}
+				r = next(svc, m, a1)
+				next(svc, m, a2)
+			} else {
+				r = next(svc, m, args)
+			}
 			e := Ev{Ev: "exit", Layer: layer, Err: errLayer(r.Error())}
 			if len(r) == 2 && !isString {
 				if v, ok := r[0].(int32); ok {
@@ -138,6 +152,9 @@ func mw(layer int, kind string, lg *logger, argIndex int, isString bool) frugal.
 			}
 			if kind == "err" {
 				r.SetError(&mwErr{layer})
+			}
+			if kind == "clr" {
+				r.SetError(nil)
 			}
 			return r
 		}
@@ -341,7 +358,7 @@ func main() {
 			for _, side := range []string{"publisher", "subscriber"} {
 				scopeSeq++
 				user := fmt.Sprintf("c16u%d", scopeSeq)
-				got1 := make(chan int32, 2)
+				got1 := make(chan int32, 64)
 				var pubMW, pubProv, subMW, subProv []frugal.ServiceMiddleware
 				if side == "publisher" {
 					pubMW = build(c.Ctor, 1, lg, 2, false) // publishCount(ctx, user, req)
@@ -363,10 +380,14 @@ func main() {
 				label := side + "/Count"
 				rp := map[string]interface{}{"point": label, "case": c}
 				var seen []int
-				select {
-				case n := <-got1:
-					seen = []int{int(n)}
-				case <-time.After(1500 * time.Millisecond):
+				for len(seen) < len(c.Want.HandlerArg) {
+					select {
+					case n := <-got1:
+						seen = append(seen, int(n))
+						continue
+					case <-time.After(1500 * time.Millisecond):
+					}
+					break
 				}
 				got := lg.take()
 				want := stripRes(c.Want.Log)
